@@ -72,6 +72,8 @@ LoggedIndexExact(e, P) ==
               /\ SeqSet(q.all) = M /\ Len(q.all) = Cardinality(M)
               /\ (IF M = {} THEN q.first = 0 ELSE q.first \in M)
               /\ q.has = (M # {})
+              /\ SeqSet(q.root_all) = M /\ Len(q.root_all) = Cardinality(M)
+              /\ SeqSet(q.root_did) = M /\ Len(q.root_did) = Cardinality(M)
               /\ \A k \in 1..Len(q.lim) : /\ SeqSet(q.lim[k]) \subseteq M
                                           /\ NoDup(q.lim[k])
                                           /\ Len(q.lim[k]) = (IF k < Cardinality(M) THEN k ELSE Cardinality(M)),
